@@ -244,7 +244,7 @@ type knownFinding struct {
 
 func loadKnown(verifDir, prop string) map[string]knownFinding {
 	res := map[string]knownFinding{}
-	f, err := os.Open(filepath.Join(verifDir, "known_findings.jsonl"))
+	f, err := os.Open(filepath.Join(verifDir, "known_findings.txt"))
 	if err != nil {
 		return res
 	}
@@ -253,17 +253,19 @@ func loadKnown(verifDir, prop string) map[string]knownFinding {
 	sc.Buffer(make([]byte, 1<<20), 1<<20)
 	for sc.Scan() {
 		line := strings.TrimSpace(sc.Text())
-		if line == "" || strings.HasPrefix(line, "#") {
+		// a "fixed:" entry suppresses nothing
+		if !strings.HasPrefix(line, "known: ") {
 			continue
 		}
-		var k knownFinding
-		if json.Unmarshal([]byte(line), &k) != nil {
+		fields := strings.SplitN(line[len("known: "):], " ", 3)
+		if len(fields) < 3 || !strings.HasPrefix(fields[0], "property=") || !strings.HasPrefix(fields[1], "key=") {
 			continue
 		}
-		// a fixed entry suppresses nothing
-		if k.Status == "known" && k.Property == prop {
-			res[k.Key] = k
+		if fields[0][len("property="):] != prop {
+			continue
 		}
+		k := knownFinding{Status: "known", Property: prop, Key: fields[1][len("key="):], What: fields[2]}
+		res[k.Key] = k
 	}
 	return res
 }
